@@ -135,7 +135,19 @@ func (r *c18Run) runRecover(cases []*c18Case) {
 			}
 			text := lib.Unhex(mine[i][4:])
 			var b any
-			o := r.impl.evalParse(text, i)
+			// the first document goes through the entry point that saw the bad text, the following ones
+			// through the others in turn
+			ent := cs.Entry
+			if i > 0 {
+				ent = c18RecoverEntries[(i+len(cs.Bad)+len(cs.Entry))%len(c18RecoverEntries)]
+			}
+			if ent == "json-parse-strict" && i%2 == 1 {
+				ent = "make-bag" // the text is SEN: not for the strict reader
+			}
+			if doc.kind == 'n' && (strings.HasPrefix(ent, "json-parse") || ent == "each-bag" || ent == "bag-parse-path") {
+				ent = "make-bag" // a null document: bag-get returns nil for a null leaf, there is no bag to look at
+			}
+			o := r.goodParse(ent, text)
 			ok := o.Ok
 			if ok {
 				b, ok = bagAny(o.Value)
@@ -156,6 +168,34 @@ func (r *c18Run) runRecover(cases []*c18Case) {
 			}
 		}
 		r.impl.heal()
+	}
+}
+
+// goodParse hands a valid text to an entry point and returns the bag it produces (no healing: the
+// recover family wants to see the damage).
+func (r *c18Run) goodParse(entry, text string) lib.Outcome {
+	b := map[string]slip.Object{"c18-text": slip.String(text), "c18-oct": slip.Octets([]byte(text))}
+	switch entry {
+	case "make-bag":
+		return r.impl.eval("(make-bag c18-text)", b)
+	case "make-bag-octets":
+		return r.impl.eval("(make-bag c18-oct)", b)
+	case "init-parse":
+		return r.impl.eval("(make-instance 'bag-flavor :parse c18-text)", b)
+	case "bag-parse":
+		return r.impl.eval("(bag-parse (make-instance 'bag-flavor) c18-text)", b)
+	case "bag-parse-path":
+		return r.impl.eval("(bag-get (bag-parse (make-bag \"{a:1}\") c18-text \"b\") \"b\" t)", b)
+	case "bag-read":
+		return r.impl.eval("(bag-read (make-instance 'bag-flavor) (make-string-input-stream c18-text))", b)
+	case "init-read":
+		return r.impl.eval("(make-instance 'bag-flavor :read (make-string-input-stream c18-text))", b)
+	case "json-parse":
+		return r.impl.eval("(let ((c18-acc nil)) (json-parse (lambda (b) (setq c18-acc b)) c18-text) c18-acc)", b)
+	case "json-parse-strict":
+		return r.impl.eval("(let ((c18-acc nil)) (json-parse (lambda (b) (setq c18-acc b)) c18-text t) c18-acc)", b)
+	default:
+		return r.impl.eval("(let ((c18-acc nil)) (each-bag (make-string-input-stream c18-text) (lambda (b) (setq c18-acc b))) c18-acc)", b)
 	}
 }
 
